@@ -19,7 +19,7 @@ EVENT_KEYS = ("p", "a", "o", "old", "new", "ok", "spur", "obs", "done")
 class ConcSpec:
     def __init__(self, name, scenario, grid, inv_props, primary, mc_cfgs=(), paths_cfg=None, trace_cfg=None,
                  dfs_max=20000, rand_execs=0, preempt=None, scen_keys=None, trace_workers=1, gen_module=None,
-                 rand_grid=None, paths_max=4000, trace_timeout=900, tail_execs=40):
+                 rand_grid=None, paths_max=4000, trace_timeout=900, tail_execs=40, replay_logical=(), replay_skip_none=False):
         self.name = name
         self.scenario = scenario
         self.grid = grid
@@ -37,6 +37,8 @@ class ConcSpec:
         self.paths_max = paths_max
         self.trace_timeout = trace_timeout
         self.tail_execs = tail_execs
+        self.replay_skip_none = replay_skip_none  # "none" events (plain code before the first operation) consume no decision
+        self.replay_logical = set(replay_logical)  # object names the specification uses logically (bound at first use)
 
 
 def params_key(p):
@@ -239,12 +241,12 @@ def _validate_chunk(spec, wd, execs, want, tag, abs_only=False):
             prop = spec.inv_props.get(inv, spec.primary)
             what = "invariant %s of %s_Trace is violated by a recorded execution of scenario %s %s at its line %d: %s" % (
                 inv, spec.name, spec.scenario, params_key(params), rel + 1, json.dumps(ex[min(rel, len(ex) - 1)])[:400])
-            if ex[0].get("tailsplit") and not inv.startswith("Abs"):
+            if ex[0].get("tailsplit") and not inv.startswith("Abs"):  # (kept for chunks validated with the full cfg)
                 # a tail-split execution cuts slices in two (the fences / plain accesses of the second half are logged
                 # with a later event): the specification's own state is not meaningful there, only the monitors are
                 col.notes.append("tail-split execution of %s %s judged by the abstract monitors only (%s not evaluated)" % (
                     spec.scenario, params_key(params), inv))
-            elif prop in want:
+            elif _wanted(prop, want):
                 col.violations.append(("%s/%s/%s" % (inv, spec.scenario, _scen_only(params, spec)), what,
                                        {"scenario": spec.scenario, "params": params, "choices": end.get("choices"),
                                         "sched": end.get("sched"), "invariant": inv, "line": rel + 1, "events": ex}))
@@ -303,6 +305,12 @@ def validate_traces(rep, spec, wd, execs, want, tag="trace"):
     return sites, total_ok
 
 
+def _wanted(prop, want):
+    """an invariant may belong to several properties (e.g. NoRace of CoMutex: C14 and C04)"""
+    props = prop if isinstance(prop, (tuple, list, set)) else (prop,)
+    return bool(set(props) & set(want))
+
+
 def _scen_only(params, spec):
     keys = spec.scen_keys or sorted(params.keys())
     return ",".join("%s=%s" % (k, params.get(k)) for k in keys)
@@ -334,7 +342,7 @@ def model_check(rep, spec, wd, want, tier):
             what_v = ("TLC: %s violated in %s (%s), instantiated with the memory orders extracted from the current tree; "
                       "counterexample schedule %s" % (inv, spec.name + "_MC", cfg, ",".join(sched)))
             tail = r.out[r.out.find("Error:"):][:6000]
-            if prop in want:
+            if _wanted(prop, want):
                 rep.violation("%s/model/%s" % (inv, spec.name), what_v, {"tlc_cfg": cfg, "tlc_module": spec.name + "_MC",
                                                                          "sched": sched, "tlc_trace": tail})
             else:
@@ -359,6 +367,8 @@ def replay_paths(rep, spec, wd, exe):
     stdin = []
     for b in behaviours:
         evs = [e for e in b["evs"] if e["p"] != "root"]
+        if spec.replay_skip_none:
+            evs = [e for e in evs if e.get("a") != "none"]
         sched = [e["p"] for e in evs]
         for k, e in enumerate(evs):
             if e.get("spur"):
@@ -373,7 +383,22 @@ def replay_paths(rep, spec, wd, exe):
     ok = 0
     mism = 0
     for b, ex in zip(behaviours, execs):
-        got = [canon(x) for x in ex if x.get("e") in ("op", "robs")]
+        got_recs = [x for x in ex if x.get("e") in ("op", "robs")]
+        if spec.replay_skip_none:
+            # plain code before a process's first operation is emitted where the process is primed, not where the
+            # specification's interleaving puts it: such events are not compared
+            got_recs = [x for x in got_recs if x.get("a") != "none"]
+            b = dict(b, evs=[e for e in b["evs"] if e.get("a") != "none"])
+        if spec.replay_logical and len(got_recs) == len(b["evs"]):
+            # bind the specification's logical object names to what the code used: the first use decides
+            bind = {}
+            for e, x in zip(b["evs"], got_recs):
+                if (x.get("e") == "op" and e.get("o") in spec.replay_logical and e["o"] not in bind
+                        and x.get("o") not in bind.values()):
+                    bind[e["o"]] = x.get("o")
+            inv = {v: k for k, v in bind.items()}
+            got_recs = [dict(x, o=inv.get(x.get("o"), x.get("o"))) if x.get("e") == "op" else x for x in got_recs]
+        got = [canon(x) for x in got_recs]
         exp = [canon(e) for e in b["evs"]]
         end = ex[-1] if ex and ex[-1].get("e") == "end" else {}
         same = got == exp
